@@ -25,6 +25,11 @@ fn unflatten(value: Value, separator: &Value, recursive: Value) -> Resolved {
     let separator = separator.try_bytes_utf8_lossy()?.into_owned();
     let recursive = recursive.try_boolean()?;
     let map = value.try_object()?;
+    // Every key "contains" the empty separator at position 0 without ever getting shorter: with
+    // nothing to split on the object is already unflattened.
+    if separator.is_empty() {
+        return Ok(map.into());
+    }
     Ok(do_unflatten(map.into(), &separator, recursive))
 }
 
